@@ -24,6 +24,61 @@ def is_len_of_real_slice(e):
     return is_call(e, "len")
 
 
+def copy_probs(facts, b, mode):
+    eb = ExprBuilder(b, facts, inline=True)
+    calls = []
+    for bi, t in b.calls():
+        if b.blocks[bi]["cleanup"]:
+            continue
+        fn = callee(t)
+        if fn is None:
+            continue
+        loc = (bi, len(b.blocks[bi]["stmts"]))
+        calls.append((bi, (fn.get("res") or fn)["path"], fn["name"], [canon(eb.operand(a, loc)) for a in t["args"]]))
+    probs = []
+    counts = []
+    if mode in ("both", "fill"):
+        mins = [a for (bi, p, nm, a) in calls if nm == "min" and len(a) == 2]
+        if len(mins) != 1:
+            probs.append("expected one min(..) computing the per-iteration count, found %d" % len(mins))
+        else:
+            m = ("call", [p for (bi, p, nm, a) in calls if nm == "min"][0], tuple(mins[0]))
+            lens = [x for x in mins[0] if is_len_of_real_slice(x)]
+            need = 2 if mode == "both" else 1
+            if len(lens) < need:
+                probs.append("the count is not bounded by the real length of %s: min(%s)" % ("both slices" if need == 2 else "the destination chunk", ", ".join(fmt_expr(x)[:40] for x in mins[0])))
+            # every cursor movement uses that same count
+            for (bi, p, nm, a) in calls:
+                if nm in ("advance", "advance_mut") and len(a) == 2:
+                    counts.append((nm, a[1]))
+                if nm in ("index", "index_mut") and len(a) == 2 and isinstance(a[1], tuple) and a[1][0] == "agg" and ("RangeTo" in str(a[1][1]) or "RangeFrom" in str(a[1][1])):
+                    counts.append(("%s[%s]" % (nm, "..n" if "RangeTo" in str(a[1][1]) else "n.."), a[1][2][0]))
+                if nm == "write_bytes" and len(a) == 3:
+                    counts.append((nm, a[2]))
+            bad = [(w, c) for (w, c) in counts if c != m]
+            if bad:
+                probs.append("cursor/index operations do not all use the same min count: %s" % "; ".join("%s(%s)" % (w, fmt_expr(c)[:50]) for w, c in bad[:3]))
+            if mode == "both" and not any(w in ("advance", "advance_mut") for w, _ in counts):
+                probs.append("no cursor is advanced")
+    else:
+        ext = [(bi, a) for (bi, p, nm, a) in calls if nm == "extend_from_slice"]
+        adv = [(bi, a) for (bi, p, nm, a) in calls if nm == "advance" and len(a) == 2]
+        if len(ext) != 1 or len(adv) != 1:
+            probs.append("expected one extend_from_slice and one src.advance")
+        else:
+            s = ext[0][1][1]
+            c = adv[0][1][1]
+            base = s
+            while isinstance(base, tuple) and base[0] in ("ref", "deref"):
+                base = base[1]
+            cb = c[2][0] if is_call(c, "len") else None
+            while isinstance(cb, tuple) and cb[0] in ("ref", "deref"):
+                cb = cb[1]
+            if not (is_call(c, "len") and cb == base):
+                probs.append("the source is advanced by %s, not by the length of the slice that was appended (%s)" % (fmt_expr(c)[:60], fmt_expr(s)[:60]))
+    return probs, counts
+
+
 def run(facts):
     res = Result("C5", "copy loops move min(real slice lengths) per iteration, index both sides by that count and advance both cursors by it")
     n = 0
@@ -34,57 +89,15 @@ def run(facts):
             continue
         b = l[0]
         n += 1
-        eb = ExprBuilder(b, facts, inline=True)
-        calls = []
-        for bi, t in b.calls():
-            if b.blocks[bi]["cleanup"]:
-                continue
-            fn = callee(t)
-            if fn is None:
-                continue
-            loc = (bi, len(b.blocks[bi]["stmts"]))
-            calls.append((bi, (fn.get("res") or fn)["path"], fn["name"], [canon(eb.operand(a, loc)) for a in t["args"]]))
-        probs = []
-        counts = []
-        if mode in ("both", "fill"):
-            mins = [a for (bi, p, nm, a) in calls if nm == "min" and len(a) == 2]
-            if len(mins) != 1:
-                probs.append("expected one min(..) computing the per-iteration count, found %d" % len(mins))
-            else:
-                m = ("call", [p for (bi, p, nm, a) in calls if nm == "min"][0], tuple(mins[0]))
-                lens = [x for x in mins[0] if is_len_of_real_slice(x)]
-                need = 2 if mode == "both" else 1
-                if len(lens) < need:
-                    probs.append("the count is not bounded by the real length of %s: min(%s)" % ("both slices" if need == 2 else "the destination chunk", ", ".join(fmt_expr(x)[:40] for x in mins[0])))
-                # every cursor movement uses that same count
-                for (bi, p, nm, a) in calls:
-                    if nm in ("advance", "advance_mut") and len(a) == 2:
-                        counts.append((nm, a[1]))
-                    if nm in ("index", "index_mut") and len(a) == 2 and isinstance(a[1], tuple) and a[1][0] == "agg" and ("RangeTo" in str(a[1][1]) or "RangeFrom" in str(a[1][1])):
-                        counts.append(("%s[%s]" % (nm, "..n" if "RangeTo" in str(a[1][1]) else "n.."), a[1][2][0]))
-                    if nm == "write_bytes" and len(a) == 3:
-                        counts.append((nm, a[2]))
-                bad = [(w, c) for (w, c) in counts if c != m]
-                if bad:
-                    probs.append("cursor/index operations do not all use the same min count: %s" % "; ".join("%s(%s)" % (w, fmt_expr(c)[:50]) for w, c in bad[:3]))
-                if mode == "both" and not any(w in ("advance", "advance_mut") for w, _ in counts):
-                    probs.append("no cursor is advanced")
-        else:
-            ext = [(bi, a) for (bi, p, nm, a) in calls if nm == "extend_from_slice"]
-            adv = [(bi, a) for (bi, p, nm, a) in calls if nm == "advance" and len(a) == 2]
-            if len(ext) != 1 or len(adv) != 1:
-                probs.append("expected one extend_from_slice and one src.advance")
-            else:
-                s = ext[0][1][1]
-                c = adv[0][1][1]
-                base = s
-                while isinstance(base, tuple) and base[0] in ("ref", "deref"):
-                    base = base[1]
-                cb = c[2][0] if is_call(c, "len") else None
-                while isinstance(cb, tuple) and cb[0] in ("ref", "deref"):
-                    cb = cb[1]
-                if not (is_call(c, "len") and cb == base):
-                    probs.append("the source is advanced by %s, not by the length of the slice that was appended (%s)" % (fmt_expr(c)[:60], fmt_expr(s)[:60]))
+        probs, counts = copy_probs(facts, b, mode)
+        if probs:
+            # the per-iteration step may live in a private helper (`copy_prefix(src, dst) -> usize`): judge the inlined views
+            from .inline import views
+            for ib in views(facts, b):
+                p2, c2 = copy_probs(facts, ib, mode)
+                if not p2:
+                    probs, counts = [], c2
+                    break
         key = ident
         if probs:
             res.bad(key, b.loc(), "; ".join(probs))
